@@ -331,7 +331,7 @@ class Main(Suite):
     go_cmd = "c52"
     coq_imports = "From GoGit Require Import Model.Reflog Spec.ReflogGit."
     quick_n = 300
-    thorough_n = 6000
+    thorough_n = 3000
 
     def gen(self, rng, n, tier):
         cases = []
